@@ -95,6 +95,12 @@ def corpus_inputs(name):
 		T = 4; dsl = [None] * T
 		hl, pl, cl, Kl, gl = [1] * T, [10] * T, [1] * T, [0, 5, 20, 50], [1.0] * T
 		kw = dict(demand_mean=8, demand_sd=2); kind = 'normal'
+	elif name == 'forward-buying':
+		# purchase cost jumps after period 1 and holding is cheap: the optimal first order-up-to level lies far above the initial
+		# truncation of the state space, so the code must enlarge its grid and restart
+		T = 3; dsl = [None] * T
+		hl, pl, cl, Kl, gl = [0.125] * T, [10] * T, [1, 6, 6], [0] * T, [1.0] * T
+		kw = dict(demand_mean=8, demand_sd=2); kind = 'normal-forward-buying'
 	else:
 		# rising AND falling fixed costs, period-varying discount, Poisson demand
 		T = 4; dsl = [DemandSource(type='P', mean=5) for _ in range(T)]
@@ -240,7 +246,7 @@ def run(rep, drv):
 				'custom-discrete sources; every cell of cost_matrix vs the documented recursion (exact model), oul by objective value, (s,S) extraction, evaluation mode, K=0; '
 				'myopic bounds. non-trivial = all')
 	rng = random.Random(rep.seed + 12)
-	for name in ('mixed-equal-moments', 'rising-fixed-costs', 'varying-everything'):
+	for name in ('mixed-equal-moments', 'rising-fixed-costs', 'forward-buying', 'varying-everything'):
 		run_case(rep, drv, rng, th, corpus=name)
 	for k in range(300 if th else 34):
 		run_case(rep, drv, rng, th)
